@@ -30,6 +30,7 @@ type Monitors struct {
 	opStores      int
 	opInvocations []Invocation
 	curTimer      *workflow.TimeoutRecord
+	timerDone     map[int64]uint // timer ID -> version written by the transition of its timeout function (C12: it must never fire again)
 	pollList      []workflow.TimeoutRecord
 	pollIdx       int
 
@@ -300,6 +301,12 @@ func (m *Monitors) onStore(rr *runRec, c *workflow.Record) {
 	cfg := w.Cfg
 	path := m.writerKind() + " in " + m.pathName()
 	m.opStores++
+	if m.curTimer != nil && strings.HasPrefix(m.opTok, "pol:") && m.writerKind() == "updater" {
+		if m.timerDone == nil {
+			m.timerDone = map[int64]uint{}
+		}
+		m.timerDone[m.curTimer.ID] = c.Meta.Version
+	}
 	m.writes = append(m.writes, *c)
 	m.entryWrite[w.outN] = [2]int{rr.ord, len(rr.versions) + 1}
 	if len(rr.versions) == 0 {
@@ -484,6 +491,10 @@ func (m *Monitors) onInvoke(inv Invocation) {
 		}
 		if t.Completed {
 			m.violate("C12", "completed-never-again", "completed-timer-fired in "+m.pathName(), fmt.Sprintf("timer %d", t.ID))
+		}
+		if v, done := m.timerDone[t.ID]; done {
+			m.violate("C12", "successful-timeout-never-again", "timer-fired-again-after-its-transition in "+m.pathName(),
+				fmt.Sprintf("timer %d already produced the transition written as version %d of run r%d; its timeout function is invoked again (the run is still/again at status %d)", t.ID, v, inv.Run, t.Status))
 		}
 		if inv.Persisted.Status != t.Status || isFinished(prs) {
 			m.violate("C12", "run-still-waiting", "timeout-run-moved-on in "+m.pathName(),
